@@ -209,16 +209,12 @@ func TestC12SM(t *testing.T) {
 					w.fail([]mon.V{{Property: "C12", Monitor: "ownership", Sig: "C12/ownership/foreign-pod-relabelled", Detail: "foreign pod " + p.Name + " lost its label"}})
 				}
 			}
-			n := 0
-			for _, p := range w.C.Pods() {
-				if strings.HasPrefix(p.Name, "foreign-") || strings.HasPrefix(p.Name, "unrelated-") {
-					if p.DeletionTimestamp == nil {
-						n++
-					}
+			// no controller call ever wrote to a foreign / unrelated pod (the environment itself may remove them:
+			// pod GC of Unknown pods, user deletions)
+			for _, call := range w.C.Calls {
+				if call.Write && call.Kind == "Pod" && call.Actor != "plugin" && (strings.HasPrefix(call.Name, "foreign-") || strings.HasPrefix(call.Name, "unrelated-")) {
+					w.fail([]mon.V{{Property: "C12", Monitor: "ownership", Sig: "C12/ownership/foreign-pod-written", Detail: fmt.Sprintf("controller call %s touched a pod that does not belong to any ExtendedDaemonSet of the world", call.String())}})
 				}
-			}
-			if n == 0 {
-				w.fail([]mon.V{{Property: "C12", Monitor: "ownership", Sig: "C12/ownership/foreign-pods-gone", Detail: "all foreign/unrelated pods disappeared"}})
 			}
 		},
 		NonTrivial: func(w *World) bool { return len(w.RSSeen) >= 2 },
